@@ -26,6 +26,21 @@ type ExternModel struct {
 var pureStdPkgs = map[string]bool{"slices": true, "strings": true, "strconv": true, "unicode": true, "unicode/utf8": true, "bytes": true,
 	"sort": true, "errors": true, "path": true, "cmp": true, "regexp": true, "math": true, "math/bits": true, "internal/stringslite": true}
 
+// stdReader: standard-library functions that only read the slices they are given
+func stdReader(name string) bool {
+	i := strings.LastIndex(name, ".")
+	base := name[i+1:]
+	if j := strings.Index(base, "["); j >= 0 {
+		base = base[:j]
+	}
+	for _, p := range []string{"Contains", "Index", "Equal", "Compare", "Max", "Min", "BinarySearch", "IsSorted", "Count", "HasPrefix", "HasSuffix", "Join", "Len", "Cap"} {
+		if strings.HasPrefix(base, p) {
+			return true
+		}
+	}
+	return false
+}
+
 func pureStdFn(f *ssa.Function) bool {
 	if f == nil {
 		return false
@@ -130,6 +145,43 @@ func (e *Exec) externModifies(c *ssa.CallCommon) []string {
 	return nil
 }
 
+// sbGet / sbSet: ghost content of a strings.Builder, per builder object (or per non-escaping local)
+func (e *Exec) sbKey(recv SV) (string, Term, bool) {
+	if recv.Addr != nil && recv.Addr.Kind == ALocal && recv.Addr.Local != nil {
+		return fmt.Sprintf("sb:%p", recv.Addr.Local), Term{}, true
+	}
+	if recv.Addr != nil && recv.Addr.Kind == AObj {
+		return "", recv.Addr.Ref, false
+	}
+	if len(recv.L) == 1 {
+		return "", recv.L[0], false
+	}
+	return "sb:unknown", Term{}, true
+}
+
+func (e *Exec) sbGet(st *State, recv SV) Term {
+	k, ref, local := e.sbKey(recv)
+	if local {
+		if t, ok := st.ghost[k]; ok {
+			return t
+		}
+		return StrLit("")
+	}
+	h := e.heapGet(st, heapSym("H", "strings.Builder", ".ghost"), ArrSort(SInt, SString))
+	return Select(h, ref)
+}
+
+func (e *Exec) sbSet(st *State, recv SV, v Term) {
+	k, ref, local := e.sbKey(recv)
+	if local {
+		st.ghost[k] = v
+		return
+	}
+	name := heapSym("H", "strings.Builder", ".ghost")
+	h := e.heapGet(st, name, ArrSort(SInt, SString))
+	e.heapSet(st, name, Store(h, ref, v))
+}
+
 func (e *Exec) extern(fr *frame, st *State, ci ssa.CallInstruction, name string, fobj *types.Func, args []SV, rt types.Type) SV {
 	e.usedExt[name] = true
 	if m, ok := externs[name]; ok {
@@ -164,6 +216,20 @@ func (e *Exec) extern(fr *frame, st *State, ci ssa.CallInstruction, name string,
 				}
 			}
 			ts = append(ts, a.L...)
+		}
+		if !scalar && !stdReader(name) {
+			// it may permute or overwrite the backing arrays of the slices it is given
+			for _, a := range args {
+				if slt, ok := a.T.Underlying().(*types.Slice); ok && len(a.L) == 4 {
+					for _, l := range flatten(slt.Elem()) {
+						hn := heapSym("A", typeKey(slt.Elem()), l.Path)
+						A := e.heapGet(st, hn, ArrSort(SInt, ArrSort(SInt, l.Sort)))
+						row := e.ctx.fresh("std.row", ArrSort(SInt, l.Sort))
+						e.ctx.closed(hn, row, st.alloc)
+						e.heapSet(st, hn, Store(A, a.L[0], row))
+					}
+				}
+			}
 		}
 		res := SV{T: rt}
 		for i, l := range flatten(rt) {
@@ -408,6 +474,20 @@ func init() {
 			func(e *Exec, fr *frame, st *State, ci ssa.CallInstruction, args []SV, rt types.Type) SV {
 				return scalar(rt, e.ctx.uf("registry.replacer.Replace", SString, args[1].L[0]))
 			}},
+		"strings.Compare": {"pure", "strings.Compare(a, b) is -1, 0 or +1 by lexicographic byte order (SMT str.<)",
+			func(e *Exec, fr *frame, st *State, ci ssa.CallInstruction, args []SV, rt types.Type) SV {
+				a, b := args[0].L[0], args[1].L[0]
+				return scalar(rt, Ite(Eq(a, b), IntLit(0), Ite(app(SBool, "str.<", a, b), IntLit(-1), IntLit(1))))
+			}},
+		"cmp.Compare": {"pure", "cmp.Compare(a, b) is -1, 0 or +1 by the natural order of strings / integers",
+			func(e *Exec, fr *frame, st *State, ci ssa.CallInstruction, args []SV, rt types.Type) SV {
+				a, b := args[0].L[0], args[1].L[0]
+				lt := Lt(a, b)
+				if a.Sort == SString {
+					lt = app(SBool, "str.<", a, b)
+				}
+				return scalar(rt, Ite(Eq(a, b), IntLit(0), Ite(lt, IntLit(-1), IntLit(1))))
+			}},
 		"strings.Index": {"pure", "strings.Index(s, sub) is SMT str.indexof(s, sub, 0)",
 			func(e *Exec, fr *frame, st *State, ci ssa.CallInstruction, args []SV, rt types.Type) SV {
 				return scalar(rt, app(SInt, "str.indexof", args[0].L[0], args[1].L[0], IntLit(0)))
@@ -433,6 +513,42 @@ func init() {
 			func(e *Exec, fr *frame, st *State, ci ssa.CallInstruction, args []SV, rt types.Type) SV {
 				s, p := args[0].L[0], args[1].L[0]
 				return scalar(rt, Ite(app(SBool, "str.suffixof", p, s), app(SString, "str.substr", s, IntLit(0), app(SInt, "-", app(SInt, "str.len", s), app(SInt, "str.len", p))), s))
+			}},
+		// strings.Builder: the content is a ghost string per builder (A-std)
+		"(*strings.Builder).WriteString": {"pure", "strings.Builder accumulates exactly what is written to it; WriteString returns (len(s), nil)",
+			func(e *Exec, fr *frame, st *State, ci ssa.CallInstruction, args []SV, rt types.Type) SV {
+				e.sbSet(st, args[0], app(SString, "str.++", e.sbGet(st, args[0]), args[1].L[0]))
+				return SV{T: rt, L: []Term{app(SInt, "str.len", args[1].L[0]), IntLit(0)}}
+			}},
+		"(*strings.Builder).WriteByte": {"pure", "WriteByte appends one byte and returns nil",
+			func(e *Exec, fr *frame, st *State, ci ssa.CallInstruction, args []SV, rt types.Type) SV {
+				e.sbSet(st, args[0], app(SString, "str.++", e.sbGet(st, args[0]), app(SString, "str.from_code", args[1].L[0])))
+				return scalar(rt, IntLit(0))
+			}},
+		"(*strings.Builder).WriteRune": {"pure", "WriteRune appends the UTF-8 encoding of the rune (one byte below 0x80) and returns (size, nil)",
+			func(e *Exec, fr *frame, st *State, ci ssa.CallInstruction, args []SV, rt types.Type) SV {
+				r := args[1].L[0]
+				enc := Ite(And(Ge(r, IntLit(0)), Lt(r, IntLit(128))), app(SString, "str.from_code", r), e.ctx.uf("utf8.encode", SString, r))
+				e.sbSet(st, args[0], app(SString, "str.++", e.sbGet(st, args[0]), enc))
+				return SV{T: rt, L: []Term{app(SInt, "str.len", enc), IntLit(0)}}
+			}},
+		"(*strings.Builder).String": {"pure", "String returns the accumulated content",
+			func(e *Exec, fr *frame, st *State, ci ssa.CallInstruction, args []SV, rt types.Type) SV {
+				return scalar(rt, e.sbGet(st, args[0]))
+			}},
+		"(*strings.Builder).Len": {"pure", "Len is the length of the accumulated content",
+			func(e *Exec, fr *frame, st *State, ci ssa.CallInstruction, args []SV, rt types.Type) SV {
+				return scalar(rt, app(SInt, "str.len", e.sbGet(st, args[0])))
+			}},
+		"(*strings.Builder).Grow": {"pure", "Grow(n) with n >= 0 does not change the content",
+			func(e *Exec, fr *frame, st *State, ci ssa.CallInstruction, args []SV, rt types.Type) SV {
+				e.safety(fr, st, "api-pre:Grow", Ge(args[1].L[0], IntLit(0)), ci)
+				return SV{T: rt}
+			}},
+		"(*strings.Builder).Reset": {"pure", "Reset empties the builder",
+			func(e *Exec, fr *frame, st *State, ci ssa.CallInstruction, args []SV, rt types.Type) SV {
+				e.sbSet(st, args[0], StrLit(""))
+				return SV{T: rt}
 			}},
 		"strings.Trim":     {"pure", "strings.Trim is a deterministic total function (uninterpreted)", strUF("strings.Trim")},
 		"strings.TrimLeft": {"pure", "strings.TrimLeft is a deterministic total function (uninterpreted)", strUF("strings.TrimLeft")},
@@ -759,7 +875,7 @@ func sortSliceModel(e *Exec, fr *frame, st *State, ci ssa.CallInstruction, args 
 	// sortedness from the closure's contract: forall i < j: !less(j, i)
 	sp := e.specs.Lookup(fnName(less.Fn.Fn))
 	if sp == nil || len(sp.Ensures) == 0 {
-		e.errorf("%s: closure %s passed to sort.Slice needs a contract 'ensures r == ...'", fnName(fr.fn), fnName(less.Fn.Fn))
+		e.oblige(st, fnName(e.top)+"/sort-comparator-contract", e.propsFor(fr, "safety"), BoolLit(false), fmt.Sprintf("closure %s passed to sort.Slice has no contract 'ensures r == ...': the order it establishes is unknown to the proof", fnName(less.Fn.Fn)))
 		return SV{T: rt}
 	}
 	e.ctx.n++
@@ -782,8 +898,8 @@ func sortSliceModel(e *Exec, fr *frame, st *State, ci ssa.CallInstruction, args 
 	for _, en := range sp.Ensures {
 		g, err := e.evalSpecBool(en.Expr, env)
 		if err != nil {
-			e.errorf("sort.Slice: closure contract: %v", err)
-			continue
+			e.oblige(st, fnName(e.top)+"/sort-comparator-contract", e.propsFor(fr, "safety"), BoolLit(false), fmt.Sprintf("the contract of the closure passed to sort.Slice cannot be evaluated on the current code: %v", err))
+			return SV{T: rt}
 		}
 		defs = append(defs, g)
 	}
